@@ -21,7 +21,9 @@ LEVEL_TEXT = ("Seeded exploration. Stall rule evaluated only at stable instants 
 LEVEL_NOTE = "Trusted: simulator loop, recording adapter decorator, body enter/exit logging."
 
 CFG = {"driver": "finish", "p_retry": 50, "p_fail": 35, "fan_max": 4, "retry_delays": [0, 1, 2, 5],
-       "p_external": 40, "p_unhandled": 15, "p_wait": 20, "wait_timeouts": [None, None, 4, 10]}
+       "p_external": 40, "p_unhandled": 15, "p_wait": 20, "wait_timeouts": [None, None, 4, 10],
+       # bodies that block the event loop for a while: wake-ups (retry delays, waiter timeouts) become overdue before the loop runs again
+       "p_stall": 12, "stall_grid": [1, 2, 3, 6]}
 
 
 def check(world, spec, outcome) -> None:
@@ -91,6 +93,28 @@ def check(world, spec, outcome) -> None:
                     # loop has drained without processing that outcome is not running anything
                     world.violate("C03.stall", f"step {step} has {q} queued events while {finished[step]} of its {len(open_slots.get(step, ()))} RUNNING slots "
                                   f"belong to invocations that already finished and whose result was never processed", seq, how="slot-held-by-finished-invocation")
+    # a retry the engine has scheduled must start once its delay is over: at quiescence (nothing can happen any more without new
+    # input; retry delays are seconds, the quiescence gap is hundreds) of a run that has not ended, a failed attempt with neither a
+    # re-delivery nor a failed run behind it is a retry that is due, has a free slot, and never starts
+    if True:
+        qseq = next((q for q, _, k, f in recs if k == "quiescent" and f.get("phase") == "pre-fin"), None)
+        ended_before_q = qseq is not None and any(k == "publish" and f["ev"] in ("StopEvent", "WorkflowFailedEvent", "WorkflowCancelledEvent", "WorkflowTimedOutEvent", "Stop1")
+                                                   for q, _, k, f in recs if q < qseq)
+        if qseq is not None and not ended_before_q:
+            pend: dict = {}
+            for seq, t, kind, f in recs:
+                if seq > qseq or kind != "tick":
+                    continue
+                if f["tick"] == "step_result" and any(r[0] == "failed" for r in f["res"]):
+                    pend.setdefault((f["step"], str(f["uid"])), []).append((seq, t))
+                elif f["tick"] == "add_event" and (f.get("attempts") or 0) >= 1 and f.get("target"):
+                    k2 = (f["target"], str(f["uid"]))
+                    if pend.get(k2):
+                        pend[k2].pop(0)
+            for (st, u), lst in pend.items():
+                if lst:
+                    world.violate("C03.stall", f"step {st} failed for input {u} at t={lst[0][1]} and a retry was scheduled, but at quiescence (t={_t(recs, qseq)}) it has still "
+                                  f"not been re-delivered although the run goes on and the step has a free worker", lst[0][0], how="due-retry-never-started")
     if saw_q:
         world.probe("queued")
     if n_idle:
